@@ -9,13 +9,15 @@
 //	{"k":"str","m":"substring","srecv":"hello","args":[E...]}         string method
 //	{"k":"table"}                                                      method table by reflection
 //
-// E = null | true | false | {"i":"5"} | {"s":"x"} | [E...]
+// E = null | true | false | {"i":"5"} | {"s":"x"} | [E...] | {"f":"<float64 bits>"} | {"o":"<n>"} (an object, one per n)
+// every answer carries "atoms": the AsString text of each float / object that occurs in the case
 // Observation: {"out":"val","res":E,"after":[E...]} | {"out":"throw"} | {"out":"panic","msg":..}
 package main
 
 import (
 	"encoding/json"
 	"fmt"
+	"math"
 	"os"
 	"reflect"
 	"sort"
@@ -45,21 +47,27 @@ type Case struct {
 }
 
 type Obs struct {
-	Out   string      `json:"out"`
-	Res   interface{} `json:"res"`
-	After interface{} `json:"after,omitempty"`
-	Msg   string      `json:"msg,omitempty"`
-	Table interface{} `json:"table,omitempty"`
-	Steps []Obs       `json:"steps,omitempty"`
+	Out   string            `json:"out"`
+	Res   interface{}       `json:"res"`
+	After interface{}       `json:"after,omitempty"`
+	Msg   string            `json:"msg,omitempty"`
+	Table interface{}       `json:"table,omitempty"`
+	Steps []Obs             `json:"steps,omitempty"`
+	Atoms map[string]string `json:"atoms,omitempty"`
 }
 
 var (
-	ctx  data.Context
-	from = node.NewTokenFrom(nil, 0, 0, 0, 0)
-	cbs  = map[string]data.Value{}
+	atoms     = map[string]string{}
+	objects   = map[string]*data.ClassValue{}
+	objectIDs = map[*data.ClassValue]string{}
+	clsStmt   data.ClassStmt
+	ctx       data.Context
+	from      = node.NewTokenFrom(nil, 0, 0, 0, 0)
+	cbs       = map[string]data.Value{}
 )
 
 const setup = `
+class C15P { public $p = 0; }
 $cb_pair = function($e, $i) { return [$e, $i]; };
 $cb_idx = function($e, $i) { return $i; };
 $cb_idxeven = function($e, $i) { return $i % 2 == 0; };
@@ -129,6 +137,30 @@ func dec(raw json.RawMessage) data.Value {
 	if v, ok := o["s"]; ok {
 		return data.NewStringValue(v)
 	}
+	if v, ok := o["f"]; ok {
+		b, err := strconv.ParseUint(v, 10, 64)
+		if err != nil {
+			panic(err)
+		}
+		fv := data.NewFloatValue(math.Float64frombits(b))
+		atoms["f:"+v] = fv.AsString()
+		return fv
+	}
+	if v, ok := o["o"]; ok {
+		if ov, ok := objects[v]; ok {
+			atoms["o:"+v] = ov.AsString()
+			return ov
+		}
+		// a class instance (identity is preserved when it is passed around; a plain ObjectValue is
+		// copied by SetVariableValue like an array)
+		ov := data.NewClassValue(clsStmt, ctx)
+		n, _ := strconv.Atoi(v)
+		ov.SetProperty("p", data.NewIntValue(n))
+		objects[v] = ov
+		objectIDs[ov] = v
+		atoms["o:"+v] = ov.AsString()
+		return ov
+	}
 	panic("bad element " + s)
 }
 
@@ -144,6 +176,16 @@ func enc(v data.GetValue) interface{} {
 		return map[string]string{"i": strconv.Itoa(x.Value)}
 	case *data.StringValue:
 		return map[string]string{"s": x.Value}
+	case *data.FloatValue:
+		b := strconv.FormatUint(math.Float64bits(x.Value), 10)
+		atoms["f:"+b] = x.AsString()
+		return map[string]string{"f": b}
+	case *data.ClassValue:
+		if id, ok := objectIDs[x]; ok {
+			atoms["o:"+id] = x.AsString()
+			return map[string]string{"o": id}
+		}
+		return map[string]string{"x": "unknown object"}
 	case *data.ArrayValue:
 		out := make([]interface{}, len(x.List))
 		for i, z := range x.List {
@@ -324,6 +366,12 @@ func main() {
 			cbs[strings.TrimPrefix(v.GetName(), "cb_")] = val
 		}
 	}
+	if cs, ok := vm.GetClass("C15P"); ok {
+		clsStmt = cs
+	} else {
+		fmt.Fprintln(os.Stderr, "setup: class C15P missing")
+		os.Exit(2)
+	}
 	if len(cbs) < 10 {
 		fmt.Fprintln(os.Stderr, "setup: callbacks missing", len(cbs))
 		os.Exit(2)
@@ -338,6 +386,11 @@ func main() {
 			w.Encode(Obs{Out: "panic", Msg: "bad json: " + err.Error()})
 			return
 		}
-		w.Encode(runCase(c))
+		atoms = map[string]string{}
+		o := runCase(c)
+		if len(atoms) > 0 {
+			o.Atoms = atoms
+		}
+		w.Encode(o)
 	})
 }
